@@ -281,6 +281,14 @@ func (g *FuncGen) resolveModNames(entries []string, pkg *types.Package) ([]strin
 				return nil, fmt.Errorf("modifies entry %q: %s is not a struct", e, e[:k])
 			}
 			found := false
+			if strings.HasPrefix(e[k+1:], "$") {
+				gm, _, err := g.ghostMap(t, e[k+1:])
+				if err != nil {
+					return nil, err
+				}
+				out = append(out, gm.Name)
+				found = true
+			}
 			for i := 0; i < st.NumFields(); i++ {
 				if st.Field(i).Name() == e[k+1:] {
 					out = append(out, g.fieldMap(t, i).Name)
